@@ -138,7 +138,7 @@ fn random_params(rng: &mut Rng) -> [f64; 6] {
 pub fn generate(s: &mut Session, thorough: bool) -> bool {
     s.agree = Some(agree);
     let mut rng = Rng::new(s.seed);
-    let n = if thorough { 60_000 } else { 3_000 };
+    let n = if thorough { 100_000 } else { 10_000 };
     let grid = if thorough { 1 << 14 } else { 1 << 12 };
     for i in 0..n {
         let p = random_params(&mut rng);
@@ -169,6 +169,64 @@ pub fn generate(s: &mut Session, thorough: bool) -> bool {
         let (x, y) = (p[0] + rho * ang.cos(), p[1] + rho * ang.sin());
         let (req, imp, why) = run_case(p, (x.hypot(y), y.atan2(x), z), grid);
         s.push_oracle("eccentricity-targeted", req, imp, why);
+    }
+    // near-parabolic: e = 1 +- 10^-k (k in [0.3, 7]) and a stationary point at a small eccentric anomaly
+    // E0 (log-uniform in [1e-5, 3], both signs), i.e. mean anomaly M = E0 - e sin E0 close to 0 where
+    // Kepler's function is nearly flat and the Newton start decides convergence (seed C16-3); both
+    // phase conventions (stationary point at the near and at the far side of the circle) are sampled
+    for i in 0..n {
+        let mut p = random_params(&mut rng);
+        let k = 0.3 + 6.7 * rng.f64_unit();
+        let e = if rng.below(3) == 0 { 1.0 + 10f64.powf(-k) } else { 1.0 - 10f64.powf(-k) };
+        let rho = p[3] * (0.05 + 2.0 * rng.f64_unit());
+        p[5] = (if rng.bool() { 1.0 } else { -1.0 }) * 2.0 * PI * (rho * p[3] / e).sqrt();
+        let t0 = (2.0 * rng.f64_unit() - 1.0) * (PI - 0.2);
+        let e0 = (if rng.bool() { 1.0 } else { -1.0 }) * 10f64.powf(-5.0 + 5.48 * rng.f64_unit());
+        let m = e0 - e * e0.sin();
+        let far = i % 2 == 0;
+        let ang = p[4] + t0 - e0 - if far { PI } else { 0.0 };
+        let z = p[2] + p[5] / (2.0 * PI) * (t0 - e0 + m);
+        let (x, y) = (p[0] + rho * ang.cos(), p[1] + rho * ang.sin());
+        let (req, imp, why) = run_case(p, (x.hypot(y), y.atan2(x), z), grid);
+        s.push_oracle("near-parabolic", req, imp, why);
+    }
+    // degenerate geometry: the point exactly on the helix axis (r = 0, so e = 0 * R / h^2 is 0 or 0/0),
+    // exactly on the helix, or at exactly the helix radius from the axis, for every class of pitch
+    // (zero, subnormal, < EPSILON, tiny, ordinary, up to 1e2 m as the property quantifies) - seed C16-4
+    for i in 0..n / 2 {
+        use uom::si::length::meter;
+        let mut p = random_params(&mut rng);
+        p[5] = match i % 8 {
+            0 => 0.0,
+            1 => f64::from_bits(1 + rng.below(1 << 20)),
+            2 => -f64::from_bits(1 + rng.below(1 << 52)),
+            3 => 10f64.powf(-300.0 + 280.0 * rng.f64_unit()),
+            4 => -10f64.powf(-20.0 + 5.0 * rng.f64_unit()),
+            5 => f64::EPSILON * (0.25 + 2.0 * rng.f64_unit()),
+            6 => (2.0 * rng.f64_unit() - 1.0) * 2.0,
+            _ => 10f64.powf(-2.0 + 4.0 * rng.f64_unit()),
+        };
+        let (r, phi, z) = (0.1 + 0.09 * rng.f64_unit(), (2.0 * rng.f64_unit() - 1.0) * PI, (2.0 * rng.f64_unit() - 1.0) * 1.152);
+        let sp = point(r, phi, z);
+        let (x, y) = (sp.x().get::<meter>(), sp.y().get::<meter>());
+        let kind = (i / 8) % 3;
+        if kind == 0 {
+            // axis through the point
+            p[0] = x;
+            p[1] = y;
+        } else if kind == 1 {
+            // point on the helix at parameter t (up to rounding of the centre)
+            let t = (2.0 * rng.f64_unit() - 1.0) * PI;
+            p[0] = x - p[3] * (t + p[4]).cos();
+            p[1] = y - p[3] * (t + p[4]).sin();
+            p[2] = z - p[5] / (2.0 * PI) * t;
+        } else {
+            // axis at exactly the helix radius from the point, along x
+            p[0] = x - p[3];
+            p[1] = y;
+        }
+        let (req, imp, why) = run_case(p, (r, phi, z), grid);
+        s.push_oracle("degenerate-geometry", req, imp, why);
     }
     // realistic tracks: helices through the origin region crossing the drift volume
     for _ in 0..n / 3 {
